@@ -131,7 +131,8 @@ func (f *function) diffEnv() (bool, string, diff.ValueDiff, error) {
 
 	// Identical stamps mean identical environments. This also covers environments that cannot be compared
 	// structurally, e.g. ones that contain cyclic data.
-	if stamp, err := f.stamp(); err == nil && stamp == f.targetInfo.Data {
+	stamp, stampErr := f.stamp()
+	if stampErr == nil && stamp == f.targetInfo.Data {
 		return true, "", nil, nil
 	}
 
@@ -141,6 +142,11 @@ func (f *function) diffEnv() (bool, string, diff.ValueDiff, error) {
 		return false, "environment changed", nil, nil
 	}
 	if eq {
+		if stampErr == nil {
+			// The stamps differ although the decoded environments compare equal: the decoded form does not
+			// capture everything the stamp does (the order of free variables, entries under unhashable keys).
+			return false, "environment changed", nil, nil
+		}
 		return true, "", nil, nil
 	}
 
